@@ -240,6 +240,103 @@ def check_introspection_failures(status_i: int, json_ok: bool, body: int, raise_
     return sent_ok and outcome == ("introspection_error",)
 
 
+class _FmtOpaque:
+    """Status code whose *rendering* is stubbed (str/format return a constant: the message text is not part of the property) while
+    comparisons, int() and index() go to the symbolic int."""
+    __slots__ = ("v",)
+
+    def __init__(self, v):
+        self.v = v
+
+    def __str__(self):
+        return "<status>"
+
+    __repr__ = __str__
+
+    def __format__(self, spec):
+        return "<status>"
+
+    def __int__(self):
+        return self.v
+
+    __index__ = __int__
+
+    def __eq__(self, o):
+        return self.v == o
+
+    def __ne__(self, o):
+        return self.v != o
+
+    def __lt__(self, o):
+        return self.v < o
+
+    def __le__(self, o):
+        return self.v <= o
+
+    def __gt__(self, o):
+        return self.v > o
+
+    def __ge__(self, o):
+        return self.v >= o
+
+    def __floordiv__(self, o):
+        return self.v // o
+
+    def __hash__(self):
+        return hash(self.v)
+
+
+class _SymStatusResponse:
+    def __init__(self, status, body):
+        self._s, self._body = status, body
+        self.status_code = _FmtOpaque(status)
+
+    @property
+    def is_success(self):  # httpx.Response.is_success is codes.is_success(status_code) == 200 <= value <= 299 (httpx/_status_codes.py)
+        return 200 <= self._s <= 299
+
+    @property
+    def is_error(self):
+        return 400 <= self._s <= 599
+
+    @property
+    def is_redirect(self):
+        return 300 <= self._s <= 399
+
+    def json(self):
+        return self._body
+
+
+def check_introspection_status_symbolic(status: int) -> bool:
+    """
+    pre: 100 <= status <= 599
+    post: _
+    """
+    # the status code as a symbolic int over the whole HTTP range, everything else held valid (JSON ok, valid body, no transport error):
+    # a valid answer is accepted iff the status is 2xx, every other status raises IntrospectionError
+    from ariadne_codegen import schema as sch
+    from ariadne_codegen.exceptions import IntrospectionError
+
+    old = sch.httpx.post
+    old_q = sch.get_introspection_query
+    sch.httpx.post = lambda url, **kw: _SymStatusResponse(status, BODIES[9])
+    sch.get_introspection_query = lambda **kw: "query Q { __typename }"
+    try:
+        try:
+            data = sch.introspect_remote_schema("http://h/graphql")
+            outcome = "ok" if data == BODIES[9]["data"] else "wrong_data"
+        except IntrospectionError:
+            outcome = "introspection_error"
+        except Exception as e:  # noqa: BLE001
+            outcome = "other:" + type(e).__name__
+    finally:
+        sch.httpx.post = old
+        sch.get_introspection_query = old_q
+    if 200 <= status <= 299:
+        return outcome == "ok"
+    return outcome == "introspection_error"
+
+
 MALFORMED_DATA = [{"__schema": {"ok": 1}}, {"__schema": None}, {}, {"__schema": {"queryType": {"name": "Q"}, "types": "x", "directives": []}},
                   {"__schema": {"queryType": {"name": "Q"}, "types": [{"kind": "OBJECT"}], "directives": []}}]
 
